@@ -158,6 +158,15 @@ def verify_seal(doc: Document) -> SealVerificationResult:
             message="No SEAL section found",
         )
 
+    # The hash covers the document without its SEAL sections, so anything inside a further
+    # section keyed SEAL would be covered by no hash at all. seal_document() writes exactly one.
+    seal_sections = [s for s in doc.sections if isinstance(s, Section) and s.key == "SEAL"]
+    if len(seal_sections) > 1:
+        return SealVerificationResult(
+            status=SealStatus.INVALID,
+            message=f"Document has {len(seal_sections)} SEAL sections; a sealed document has exactly one",
+        )
+
     # Get the stored hash
     stored_hash = seal_data.get("HASH", "")
     if isinstance(stored_hash, str):
